@@ -93,7 +93,7 @@ def write_events(events: Sequence[Event], path: str):
 
 
 def event_strategy(schema: Schema, uses: Sequence[Tuple[str, str]], *, allow_missing_bank=False, null_links=True,
-                   attr_names: Sequence[str] = (), max_size=4, extra_num: Dict[str, Sequence[str]] = None):
+                   attr_names: Sequence[str] = (), max_size=4, extra_num: Dict[str, Sequence[str]] = None, min_size=0):
     """One event holding a bank for every (accessor, bank) in `uses`."""
     from hypothesis import strategies as st
 
@@ -101,7 +101,7 @@ def event_strategy(schema: Schema, uses: Sequence[Tuple[str, str]], *, allow_mis
     special = st.sampled_from([0.0, 1.0, -1.0, 2.0, 0.5, -0.25, 3.0])
     real = st.one_of(quarter, quarter, special)
     small_int = st.integers(-5, 9)
-    sizes = st.sampled_from([0, 0, 1, 1, 2, 2, 3, 4][: 4 + max_size])
+    sizes = st.sampled_from([x for x in [0, 0, 1, 1, 2, 2, 3, 4][: 4 + max_size] if x >= min_size])
 
     @st.composite
     def ev(draw, eid=0):
